@@ -724,7 +724,15 @@ func runB2B(id string, variant int, steps []tStep, envs map[string]*wireEnv, w *
 	chunk := []int{1, 7, 64, 1 << 16}[variant%4]
 	client := grpcclients.NewCASBlobAccess(env.conn, uuid.NewRandom, chunk, zp)
 	names := []string{"p", "q"}
-	dg := func(n string) digest.Digest { return digestOf(b2bContent(n, variant)) }
+	dg := func(n string) digest.Digest {
+		d := digestOf(b2bContent(n, variant))
+		if n == "q" && variant%3 == 2 {
+			// the two objects live under different instance names: one FindMissing call of the client then
+			// spans several FindMissingBlobs RPCs whose answers have to be merged (seeded change C14-b)
+			return digest.MustNewDigest("inst/other", remoteexecution.DigestFunction_SHA256, d.GetHashString(), d.GetSizeBytes())
+		}
+		return d
+	}
 	if len(steps) > 0 {
 		for _, n := range steps[0].B0 {
 			be.objs[key(dg(n))] = &entry{data: b2bContent(n, variant)}
